@@ -174,7 +174,7 @@ harness!(c14_pairs_6, split2(2, 2, |i, j| pairs(6, i, j)));
 harness!(c14_pairs_7, split2(2, 2, |i, j| pairs(7, i, j)));
 harness!(c14_pairs_8, split2(2, 2, |i, j| pairs(8, i, j)));
 
-//@ props: C14
+//@ props: UNREACHED-C14
 //@ tier: thorough
 //@ timeout: 7200
 //@ harness: c14_pairs_0_w, c14_pairs_1_w, c14_pairs_2_w, c14_pairs_3_w, c14_pairs_4_w, c14_pairs_5_w, c14_pairs_6_w, c14_pairs_7_w, c14_pairs_8_w
